@@ -24,7 +24,12 @@ claim("C04",
       "trusted: TLC, the projection of nx.Graph to node/edge/attribute lists; for repeated pairs only membership of the stored record among the occurrences is required (the statement constrains pairs occurring once)",
       T_TLC, "DESIGN.md 4 C04")
 
+claim("C05",
+      "TLC model-checks the draw/repair state machine (all distributions of the family, sizes in {1,2,3}, N<=3, every draw and every patch target): length, divisibility, fewest-additions, never-removes, support; the real sampler is walked through its RNG tree (aligned grid for random.choices, full randrange tree) on the same 1512-state family, the exact law of the raw draws is judged as an integer identity (P(raw) = prod w/W^N), and seeded runs to N=2000 are judged incl. usability of the result by the empirical loader and the generator",
+      "trusted: TLC; raw draws are observed through a wrapper on handshaking_lemma (falls back to an existential over raw draws for N<=4); random.choices uses bisect over cumulative weights (aligned grid)",
+      T_TLC, "DESIGN.md 4 C05")
+
 _pending = "no check built yet in this round; planned (DESIGN.md 4)"
-for p in ["C05","C06","C07","C08","C09","C10","C11","C12","C13","C14","C15","C16","C17","C18"]:
+for p in ["C06","C07","C08","C09","C10","C11","C12","C13","C14","C15","C16","C17","C18"]:
     NOT_APPLICABLE[p] = _pending
 NOT_APPLICABLE["C19"] = "numerical accuracy of four stateless real-valued functions (exp, zeta, polylog): no state, no transitions, TLC has neither reals nor transcendental functions (DESIGN.md 5)"
